@@ -1,39 +1,65 @@
 ---------------------------- MODULE SupportSearch ----------------------------
 (* The support search of MultivariateModel.conditional_sample (rejection sampler).       *)
 (*                                                                                      *)
-(* x_max starts at 100 and is multiplied by 0.7 while the JOINT density at x_max is      *)
-(* below an absolute threshold (1e-7), down to a floor.  Position k stands for           *)
-(* x_max = 100 * 0.7^k; g[k] is the (scaled) joint density there along the free          *)
-(* coordinate for the given conditioning value.  The conditional density is g / sum(g):  *)
-(* an extreme conditioning value scales the whole profile down, so an ABSOLUTE threshold  *)
-(* cuts where the CONDITIONAL density is still large.  Relative = TRUE is the repaired    *)
-(* design (threshold relative to the profile's peak).  Profiles: peak Peak at position    *)
-(* Mode, halving per position on both sides.                                             *)
+(* x_max is tried on the grid 100 * 0.7^c (coarse position c = 0..KMax) until the JOINT  *)
+(* density there reaches an absolute threshold (1e-7).  The density profile along the    *)
+(* free coordinate lives on a finer lattice (Sub fine positions per grid step; a larger   *)
+(* fine index is a smaller x): peak Peak at fine position Mode, falling by 2^Steep per     *)
+(* fine position on both sides, so that a steep profile can lie between two grid values.  *)
+(*                                                                                      *)
+(* Rule = "first_above"  the code up to D58: x_max = the first grid value whose density   *)
+(*                       reaches the threshold.  That value lies INSIDE the support; the   *)
+(*                       mass between it and the previous grid value is cut off, and a     *)
+(*                       profile between two grid values is stepped over (x_max = floor).  *)
+(* Rule = "step_back"    the code since D58: x_max = the grid value tried before it; if no  *)
+(*                       grid value reaches the threshold the fine lattice is scanned       *)
+(*                       (np.geomspace in the code) and x_max is one grid step above the    *)
+(*                       largest x that does.                                              *)
+(* Relative = TRUE       a design in which the threshold is relative to the profile's peak  *)
+(*                       (not in the code): an extreme conditioning value scales the whole  *)
+(*                       profile down, and below the ABSOLUTE threshold nothing is found    *)
+(*                       (recorded known finding D15).                                     *)
 EXTENDS Integers, Sequences, FiniteSets, Fix
 
-CONSTANTS KMax, Peaks, Thr, Relative, TailPermille
+CONSTANTS KMax, Sub, Peaks, Steeps, Thr, Rule, Relative, TailPermille
 
-VARIABLES g, k, pc
-vars == <<g, k, pc>>
+VARIABLES g, c, xm, pc
+vars == <<g, c, xm, pc>>
 
-Profile(peak, mode) == [j \in 0..KMax |-> peak \div (2 ^ Abs(j - mode))]
-EffThr == IF Relative THEN (g[CHOOSE j \in 0..KMax : \A i \in 0..KMax : g[i] <= g[j]] \div 1024) + 1 ELSE Thr
+FMax == KMax * Sub
+Pow2(n) == 2 ^ n
+Profile(peak, mode, steep) ==
+    [f \in 0..FMax |-> IF steep * Abs(f - mode) > 30 THEN 0 ELSE peak \div Pow2(steep * Abs(f - mode))]
+PeakOf == g[CHOOSE j \in 0..FMax : \A i \in 0..FMax : g[i] <= g[j]]
+EffThr == IF Relative THEN (PeakOf \div 1024) + 1 ELSE Thr
 
-Init == /\ \E peak \in Peaks, mode \in 2..(KMax - 1) : g = Profile(peak, mode)
-        /\ k = 0 /\ pc = "search"
+Init == /\ \E peak \in Peaks, mode \in (2 * Sub)..(FMax - Sub), steep \in Steeps : g = Profile(peak, mode, steep)
+        /\ c = 0 /\ xm = -1 /\ pc = "search"
 
-Shrink == /\ pc = "search" /\ g[k] < EffThr /\ k < KMax
-          /\ k' = k + 1 /\ UNCHANGED <<g, pc>>
-Stop == /\ pc = "search" /\ (g[k] >= EffThr \/ k = KMax)
-        /\ pc' = "sample" /\ UNCHANGED <<g, k>>
-Next == Shrink \/ Stop
+At(k) == g[k * Sub]
+InSupport == {f \in 0..FMax : g[f] >= EffThr}
+MinOf(S) == CHOOSE x \in S : \A y \in S : x <= y
+Max0(a) == IF a < 0 THEN 0 ELSE a
+
+Shrink == /\ pc = "search" /\ At(c) < EffThr /\ c < KMax
+          /\ c' = c + 1 /\ UNCHANGED <<g, xm, pc>>
+Stop == /\ pc = "search" /\ At(c) >= EffThr
+        /\ xm' = IF Rule = "step_back" /\ c > 0 THEN (c - 1) * Sub ELSE c * Sub
+        /\ pc' = "sample" /\ UNCHANGED <<g, c>>
+Floor == /\ pc = "search" /\ At(c) < EffThr /\ c = KMax
+         /\ xm' = IF Rule = "step_back" /\ InSupport # {} THEN Max0(MinOf(InSupport) - Sub) ELSE FMax
+         /\ pc' = "sample" /\ UNCHANGED <<g, c>>
+Next == Shrink \/ Stop \/ Floor
 Spec == Init /\ [][Next]_vars
 
 RECURSIVE Mass(_)
 Mass(S) == IF S = {} THEN 0 ELSE LET j == CHOOSE x \in S : TRUE IN g[j] + Mass(S \ {j})
-Total == Mass(0..KMax)
-Beyond == Mass({j \in 0..KMax : j < k})            \* positions with larger x than x_max are cut off
+Total == Mass(0..FMax)
+Beyond == Mass({f \in 0..FMax : f < xm})       \* fine positions with larger x than x_max are cut off
 
-StopRule == pc = "sample" => (g[k] >= EffThr \/ k = KMax) /\ \A j \in 0..(k - 1) : g[j] < EffThr
+(* what the search guarantees about the grid values (basis of the conformance report in Trace_C16) *)
+StopRule == pc = "sample" /\ xm # FMax /\ Rule = "step_back" =>
+               \/ (xm = 0 /\ (g[0] >= EffThr \/ c = 1 \/ c = KMax))
+               \/ g[xm] < EffThr
 NoTailTruncation == pc = "sample" => Beyond * 1000 <= TailPermille * Total
 =============================================================================
